@@ -9,7 +9,7 @@ import "time"
 func init() {
 	register(&Suite{
 		Name:        "c05",
-		Rule:        "multi-round histories (3-6 rounds) with many deletes and explicit delete-then-recreate of identical content within a round and across rounds; rounds that delete / overwrite earlier-round content and then move by MergeDB to a donor built off the state they started from (the replaced nodes are live again); after a save a prune at one of the saved versions (30% with a crash budget, then re-run); every prune is additionally crashed at every write index on a clone and re-run; dead sets are read back from the dead-node records; non-trivial = at least one non-empty dead record and one prune that had something to delete",
+		Rule:        "multi-round histories (3-6 rounds) with many deletes and explicit delete-then-recreate of identical content within a round and across rounds; rounds that delete / overwrite earlier-round content and then move by MergeDB to a donor built off the state they started from (the replaced nodes are live again); after a save a prune at one of the saved versions (30% with a crash budget, then re-run); every prune is additionally crashed at every write index on a clone and re-run; dead sets are read back from the dead-node records; two large cases per quick run with dead-node records of exactly maxPruneNodes-1 .. 2*maxPruneNodes+1 keys (constants read from the regenerated Constants.lean) pruned in stages with crashes between the delete batches; non-trivial = at least one non-empty dead record and one prune that had something to delete",
 		Gen:         genStoreCase(profC05),
 		CaseTimeout: 120 * time.Second, // generous: a loaded machine must not turn into an oracle failure
 		Run:         func(ops []string) CaseResult { return runStoreCase("C05", ops) },
